@@ -353,3 +353,324 @@ def c11(run, scratch):
     run.assumptions += ['a name in a branch / jump target position is a label-style reference (documented "offset" behaviour), not an integer operand site; numeric sequence '
                         'directives (bytes/shorts/..) are documented to take integer literals only: both are outside the substitution clause',
                         'expression values are kept below 2^22 (TLC integers are 32-bit); the operators\' semantics do not depend on magnitude']
+
+
+# ---------------------------------------------------------------------------------------------
+# C13
+# ---------------------------------------------------------------------------------------------
+def _variant_batch(args):
+    canon, variants, seed = args
+    rng = random.Random(seed)
+    base = {}
+    for p, lines in enumerate(canon, start=1):
+        src = '\n'.join(lines) + '\n'
+        for comp in (False, True):
+            labels = {}
+            rec = impl.assemble_recorded(src, compress=comp, labels=labels)
+            base[(p, comp)] = (rec['status'] if rec['status'] != 'ok' else 'ok', rec['out'], rec['labels'])
+    fillers = ['', '\n', '# whole-line comment, with (parens)\n', '   \n', '\t# indented comment\n', '#\n']
+    out = []
+    for p, i, text in variants:
+        lines = list(canon[p - 1])
+        lines[i - 1] = text
+        src = ''.join(rng.choice(fillers) + ln + '\n' for ln in lines) + rng.choice(fillers)
+        comp = rng.random() < 0.3
+        rec = impl.assemble_recorded(src, compress=comp)
+        st = rec['status'] if rec['status'] != 'ok' else 'ok'
+        b = base[(p, comp)]
+        if (st, rec['out'], rec['labels']) != b:
+            out.append((p, i, text, comp, src, str(st)[:200], rec['out'].hex() if rec['out'] else None, rec['labels'], str(b[0])[:200],
+                        b[1].hex() if b[1] else None, b[2]))
+    return len(variants), out, {k: v[0] for k, v in base.items()}
+
+
+def c13(run, scratch):
+    seps = '{" ", ",", " , "}' if run.tier == 'quick' else '{" ", ",", ", ", " , ", "\\t"}'
+    r = tlc.run('LexSpace', _cfg(scratch, 'ls', 'SPECIFICATION Spec\nCONSTANTS\n  SepSet = %s\n  WithFp = %s\nINVARIANT LexTheorem\nINVARIANT Export\nCHECK_DEADLOCK FALSE\n'
+                                 % (seps, 'TRUE' if run.tier == 'thorough' else 'FALSE')), workers=1, heap='4g', timeout=3600)
+    if r.invariant_violated or not r.completed:
+        raise tlc.TlcFailure('LexSpace: the lexical theorem fails on the specification itself: ' + r.out[-2000:])
+    run.add_tlc('LexSpace', r)
+    canon, variants = None, []
+    for v in r.printed():
+        if v and v[0] == 'CANON':
+            canon = v[1]
+        elif v and v[0] == 'V':
+            variants.append((v[1], v[2], v[3]))
+    if canon is None or len(variants) != r.distinct - 1 - sum(len(p) for p in canon):
+        raise tlc.TlcFailure('LexSpace: parsed %d variants of %d states' % (len(variants), r.distinct))
+    rng = random.Random(run.seed)
+    # cross-line combinations: every line of a program rewritten at once (TLC's variants composed at random)
+    byline = {}
+    for p, i, t in variants:
+        byline.setdefault((p, i), []).append(t)
+    combos = []
+    ncombo = 4000 if run.tier == 'quick' else 60000
+    total = 0
+    jobs = [(canon, variants[k::32], run.seed + k) for k in range(32)]
+    statuses = {}
+    with ProcessPoolExecutor(max_workers=16) as ex:
+        for n, bad, st in ex.map(_variant_batch, jobs):
+            total += n
+            statuses.update(st)
+            for p, i, text, comp, src, s1, o1, l1, s0, o0, l0 in bad:
+                run.violation('SameBytes' if o1 != o0 or s1 != s0 else 'SameLabels', {'program': p, 'line': i, 'compress': comp},
+                              {'variant_line': text, 'source': src, 'canonical_line': canon[p - 1][i - 1], 'variant': {'status': s1, 'bytes': o1, 'labels': l1},
+                               'canonical': {'status': s0, 'bytes': o0, 'labels': l0}})
+    if any(v != 'ok' for v in statuses.values()):
+        raise tlc.TlcFailure('a canonical base program does not assemble: %s' % statuses)
+    # all lines rewritten simultaneously
+    nbad = 0
+    for _ in range(ncombo):
+        p = rng.randrange(1, len(canon) + 1)
+        lines = [rng.choice(byline[(p, i)]) for i in range(1, len(canon[p - 1]) + 1)]
+        comp = rng.random() < 0.5
+        rec = impl.assemble_recorded('\n'.join(lines) + '\n', compress=comp)
+        base = impl.assemble_recorded('\n'.join(canon[p - 1]) + '\n', compress=comp)
+        total += 1
+        if (rec['status'], rec['out'], rec['labels']) != (base['status'], base['out'], base['labels']):
+            run.violation('SameBytes', {'program': p, 'line': 0, 'compress': comp},
+                          {'source': '\n'.join(lines), 'variant': {'status': str(rec['status'])[:200], 'bytes': rec['out'].hex() if rec['out'] else None},
+                           'canonical': {'bytes': base['out'].hex() if base['out'] else None}})
+    run.coverage['traces_validated_against_impl'] = total
+    run.coverage['evaluations'] = total
+    run.coverage['distinct_nontrivial'] = len({(p, i, t) for p, i, t in variants})
+    run.coverage['base_programs'] = len(canon)
+    run.coverage['cross_line_combinations'] = ncombo
+    run.coverage['exhaustive'] = True
+    run.coverage['rule'] = ('5 base programs (34 lines: R/I/S/B/U/J, loads/stores/jalr/c.lw/c.sw with both offset syntaxes, labels, data, align, constants, pseudo, atomics, fence, csr, '
+                            'compressed); per line every choice vector (separator per operand gap from %s, 2 mnemonic separators, 3 indentations, 3 trailing-comment forms, '
+                            'register as number/xN/alias, integer as decimal/hex/binary, imm(reg) vs reg,imm) is a TLC state on which the lexical theorem is checked and whose '
+                            'text replaces the canonical line (random blank / whole-line-comment fillers between lines); plus %d programs with every line rewritten at once; '
+                            'non-trivial = distinct variant lines' % (seps, ncombo))
+    for p, i, t in variants[1000:1003]:
+        run.sample({'program': p, 'line': i, 'variant': t, 'canonical': canon[p - 1][i - 1]})
+    run.coverage['trusted_base'] = ['TLC', 'AsmLex.tla as the reading of the documented lexical structure', 'the harness compares two observed outputs (variant vs canonical)']
+    run.assumptions += ['only the freedoms the property lists are exercised: upper-case mnemonics/registers, indented include lines and comments on string/error lines are outside it']
+
+
+# ---------------------------------------------------------------------------------------------
+# C14
+# ---------------------------------------------------------------------------------------------
+def _include_batch(args):
+    base, scenarios, seed, cli_every = args
+    a = impl.asm()
+    out = []
+    root = os.path.join(base, 'inc_%d_%d' % (seed, os.getpid()))
+    for n, (sc, files, expected) in enumerate(scenarios):
+        if os.path.exists(root):
+            shutil.rmtree(root)
+        for d in ('proj/sub', 'proj/sub/sub', 'inc1/sub', 'inc2/sub', 'other', 'inc1/sub/sub', 'inc2/sub/sub', 'proj/sub/sub/sub'):
+            os.makedirs(os.path.join(root, d), exist_ok=True)
+        for d, name, lines in files:
+            os.makedirs(os.path.join(root, d), exist_ok=True)
+            with open(os.path.join(root, d, name), 'w') as f:
+                f.write('\n'.join(lines) + '\n')
+        cwd = os.path.realpath(os.path.join(root, sc['cwd']))
+        os.chdir(cwd)
+        main_abs = os.path.join(root, 'proj', 'main.asm')
+        main = os.path.relpath(main_abs, cwd) if sc['rel'] else main_abs
+        incs = [os.path.join(root, 'inc1'), os.path.join(root, 'inc2')]
+        res = {'sc': sc, 'problems': []}
+        # (B) provenance of the lines the real reader returns
+        try:
+            lines = a.read_lines(main, include_dirs=incs)
+            prov = []
+            for ln in lines:
+                fp = os.path.relpath(os.path.realpath(ln.file), os.path.realpath(root))
+                d, name = os.path.split(fp)
+                prov.append([d or '.', name, ln.number, ln.contents])
+        except Exception as e:
+            prov = None
+            res['problems'].append(('LookupDocumented', 'read_lines raised %s: %s' % (type(e).__name__, str(e)[:150])))
+        if prov is not None and prov not in [[list(x) for x in e] for e in expected]:
+            res['problems'].append(('LookupDocumented' if [p[:2] for p in prov] not in [[list(x)[:2] for x in e] for e in expected] else 'SpliceEqual',
+                                    'lines read %s not among the acceptable flattenings %s' % (prov, expected[:1])))
+        # relational: include == splice
+        consts, labels = {}, {}
+        rec = impl.assemble_recorded(main, include_dirs=incs, constants=consts, labels=labels)
+        if prov is not None:
+            flat = '\n'.join(p[3] for p in prov) + '\n'
+            r2 = impl.assemble_recorded(flat)
+            if (rec['status'] if rec['status'] == 'ok' else 'err', rec['out'], rec['labels'], rec['constants']) != \
+               (r2['status'] if r2['status'] == 'ok' else 'err', r2['out'], r2['labels'], r2['constants']):
+                res['problems'].append(('SpliceEqual', 'include: %s %s %s / spliced: %s %s %s' % (
+                    str(rec['status'])[:100], rec['out'].hex() if rec['out'] else None, rec['labels'],
+                    str(r2['status'])[:100], r2['out'].hex() if r2['out'] else None, r2['labels'])))
+        if rec['status'] != 'ok':
+            res['problems'].append(('SpliceEqual', 'assemble failed: %s' % str(rec['status'])[:200]))
+        res['out'] = rec['out'].hex() if rec['out'] else None
+        if cli_every and n % cli_every == 0:
+            outp = os.path.join(root, 'other', 'cli.bin')
+            argv = [sys.executable, '-B', '-c', 'import sys; sys.path.insert(0, %r); from bronzebeard.asm import cli_main; cli_main()' % impl.REPO,
+                    main, '-o', outp, '-i', os.path.relpath(incs[0], cwd), '-i', incs[1]]
+            p = subprocess.run(argv, cwd=cwd, stdout=subprocess.PIPE, stderr=subprocess.PIPE, timeout=60)
+            got = open(outp, 'rb').read().hex() if p.returncode == 0 and os.path.exists(outp) else None
+            if got != res['out']:
+                res['problems'].append(('CwdIndependent', 'CLI from %s gave %s (exit %d: %s), API gave %s' % (sc['cwd'], got, p.returncode, p.stderr.decode(errors='replace')[-150:], res['out'])))
+            res['cli'] = True
+        out.append(res)
+        os.chdir(base)
+    shutil.rmtree(root, ignore_errors=True)
+    return out
+
+
+def c14(run, scratch):
+    r = tlc.run('IncludeSpace', _cfg(scratch, 'is', 'SPECIFICATION Spec\nINVARIANT Export\nINVARIANT NonEmpty\nCHECK_DEADLOCK FALSE\n'), workers=1, heap='4g', timeout=3600)
+    if r.invariant_violated or not r.completed:
+        raise tlc.TlcFailure('IncludeSpace failed: ' + r.out[-2000:])
+    run.add_tlc('IncludeSpace', r)
+    scs = []
+    for v in r.printed():
+        if v and v[0] == 'SC':
+            scs.append((v[1], [list(x) for x in v[2]['set']], [list(e) for e in v[3]['set']]))
+    if len(scs) != r.distinct - 1:
+        raise tlc.TlcFailure('IncludeSpace: parsed %d of %d scenarios' % (len(scs), r.distinct - 1))
+    rng = random.Random(run.seed)
+    if run.tier == 'quick':
+        scs = rng.sample(scs, 5000)
+    cli_every = 60 if run.tier == 'quick' else 12
+    jobs = [(scratch, scs[k::32], run.seed * 100 + k, cli_every) for k in range(32)]
+    total, ncli, by_out = 0, 0, {}
+    with ProcessPoolExecutor(max_workers=16) as ex:
+        for part in ex.map(_include_batch, jobs):
+            for res in part:
+                total += 1
+                ncli += 1 if res.get('cli') else 0
+                sc = res['sc']
+                for clause, what in res['problems']:
+                    run.violation(clause, {'depth': sc['depth'], 'decoy': sc['decoy'], 'cwd_is_proj': sc['cwd'] == 'proj'}, {'scenario': sc, 'what': what})
+                # cwd independence across scenarios that differ only in cwd / rel / decoy-free
+                if sc['decoy'] == 'none':
+                    key = (sc['depth'], sc['pos'], sc['l1'], sc['l2'], sc['l3'], sc['quoted'])
+                    by_out.setdefault(key, set()).add(res['out'])
+    for key, outs in by_out.items():
+        if len(outs) > 1:
+            run.violation('CwdIndependent', {'depth': key[0]}, {'tree': key, 'distinct_outputs': sorted(str(o) for o in outs)})
+    run.coverage['traces_validated_against_impl'] = total
+    run.coverage['evaluations'] = total
+    run.coverage['distinct_nontrivial'] = total
+    run.coverage['scenarios_enumerated_by_tlc'] = r.distinct - 1
+    run.coverage['cli_subprocess_runs'] = ncli
+    run.coverage['exhaustive'] = run.tier == 'thorough'
+    run.coverage['rule'] = ('TLC enumerates 15,120 include scenarios (depth 1-3, include line first/middle/last, each included file beside its includer / in sub/ / in -i dir inc1 / inc2, '
+                            'same-named decoy in the working directory or in an unsearched directory, 5 working directories, absolute or relative main path, quoted or bare file name) '
+                            'and AsmInclude!Flatten gives the acceptable flattenings with provenance; the harness materialises each tree, compares read_lines\' (file, line, text) '
+                            'sequence with them, assembles the tree and the spliced text (bytes, labels, constants must agree) and runs the CLI in a subprocess for a sample; '
+                            'the quick tier draws 5,000 scenarios (seeded), the thorough tier runs all')
+    for sc, files, exp in scs[:2]:
+        run.sample({'scenario': sc, 'files': files, 'acceptable_flattenings': len(exp)})
+    run.coverage['trusted_base'] = ['TLC', 'AsmInclude.tla as the reading of the documented include search', 'the harness materialises file trees and maps paths back to (dir, name)']
+    run.assumptions += ['when several directories hold a file of the requested name among the includer\'s directory and the -i directories, any of them is acceptable (no documented priority)',
+                        'include directories are passed as absolute paths (as the CLI does)']
+
+
+# ---------------------------------------------------------------------------------------------
+# C15
+# ---------------------------------------------------------------------------------------------
+def _fault_batch(args):
+    base, scenarios, seed, cli_every = args
+    out = []
+    root = os.path.join(base, 'flt_%d_%d' % (seed, os.getpid()))
+    for n, (cls, variant, depth, pos, files, planted, inflat) in enumerate(scenarios):
+        if os.path.exists(root):
+            shutil.rmtree(root)
+        for d in ('proj', 'inc1', 'elsewhere'):
+            os.makedirs(os.path.join(root, d), exist_ok=True)
+        for d, name, lines in files:
+            with open(os.path.join(root, d, name), 'w') as f:
+                f.write('\n'.join(lines) + '\n')
+        os.chdir(os.path.join(root, 'elsewhere'))
+        main = os.path.join(root, 'proj', 'main.asm')
+        want_file = os.path.realpath(os.path.join(root, planted[0], planted[1]))
+        res = {'cls': cls, 'variant': variant, 'depth': depth, 'pos': pos, 'planted': planted, 'runs': []}
+        modes = [('api', False), ('api', True)]
+        if depth == 0:
+            modes += [('string', False), ('string', True)]
+        for via, comp in modes:
+            if via == 'string':
+                os.chdir(os.path.join(root, 'proj'))
+                src = open(main).read()
+                rec = impl.assemble_recorded(src, compress=comp, include_dirs=[os.path.join(root, 'inc1')])
+                os.chdir(os.path.join(root, 'elsewhere'))
+            else:
+                rec = impl.assemble_recorded(main, compress=comp, include_dirs=[os.path.join(root, 'inc1')])
+            st = rec['status']
+            if st == 'ok':
+                verdict = 'accepted'
+            elif st[0] == 'raw':
+                verdict = 'raw:' + st[1]
+            else:
+                f = st[1]
+                okfile = (f == '<string>') if via == 'string' else (f is not None and os.path.realpath(f) == want_file)
+                verdict = 'ok' if okfile and st[2] == planted[2] else 'wrong-line:%s:%s' % (os.path.basename(str(f)), st[2])
+            res['runs'].append((via, comp, verdict, str(st)[:300]))
+        if cli_every and n % cli_every == 0:
+            for comp in (False, True):
+                argv = [sys.executable, '-B', '-c', 'import sys; sys.path.insert(0, %r); from bronzebeard.asm import cli_main; cli_main()' % impl.REPO,
+                        main, '-o', os.path.join(root, 'elsewhere', 'o.bin'), '-i', os.path.join(root, 'inc1')] + (['-c'] if comp else [])
+                p = subprocess.run(argv, cwd=os.path.join(root, 'elsewhere'), stdout=subprocess.PIPE, stderr=subprocess.PIPE, timeout=60)
+                err = p.stderr.decode(errors='replace')
+                if p.returncode == 0:
+                    verdict = 'accepted'
+                elif 'Traceback' in err:
+                    verdict = 'raw:traceback'
+                elif 'AssemblerError' in err and ('line %d' % planted[2]) in err and planted[1] in err:
+                    verdict = 'ok'
+                else:
+                    verdict = 'wrong-line:cli'
+                res['runs'].append(('cli', comp, verdict, err[-300:]))
+        out.append(res)
+    os.chdir(base)
+    shutil.rmtree(root, ignore_errors=True)
+    return out
+
+
+def c15(run, scratch):
+    r = tlc.run('FaultSpace', workers=1, heap='3g', timeout=1800)
+    if not r.completed:
+        raise tlc.TlcFailure('FaultSpace failed: ' + r.out[-2000:])
+    run.add_tlc('FaultSpace', r)
+    scs = [v[1:] for v in r.printed() if v and v[0] == 'F']
+    scs = [(a, b, c, d, [list(x) for x in e['set']], f, g) for a, b, c, d, e, f, g in scs]
+    if len(scs) != r.distinct - 1 or not all(s[6] for s in scs):
+        raise tlc.TlcFailure('FaultSpace: parsed %d of %d scenarios / planted line not in the flattened program' % (len(scs), r.distinct - 1))
+    cli_every = 25 if run.tier == 'quick' else 3
+    jobs = [(scratch, scs[k::32], run.seed * 100 + k, cli_every) for k in range(32)]
+    total, accepted_dup, classes = 0, 0, set()
+    with ProcessPoolExecutor(max_workers=16) as ex:
+        for part in ex.map(_fault_batch, jobs):
+            for res in part:
+                classes.add(res['cls'])
+                for via, comp, verdict, st in res['runs']:
+                    total += 1
+                    if verdict == 'ok':
+                        continue
+                    if verdict == 'accepted':
+                        if res['cls'] == 'duplicate':
+                            accepted_dup += 1     # the property speaks of programs that ARE refused
+                            continue
+                        run.violation('FaultRefused', {'class': res['cls'], 'variant': res['variant'], 'compress': comp, 'via': via},
+                                      {'scenario': res, 'status': st})
+                    elif verdict.startswith('raw'):
+                        run.violation('OwnError', {'class': res['cls'], 'variant': res['variant'], 'compress': comp, 'exception': verdict},
+                                      {'fault': res['cls'] + '/' + res['variant'], 'depth': res['depth'], 'pos': res['pos'], 'via': via, 'compress': comp, 'status': st})
+                    else:
+                        run.violation('ErrorAtPlantedLine', {'class': res['cls'], 'variant': res['variant'], 'compress': comp, 'via': via},
+                                      {'fault': res['cls'] + '/' + res['variant'], 'depth': res['depth'], 'pos': res['pos'], 'planted': res['planted'],
+                                       'observed': verdict, 'status': st})
+    run.coverage['traces_validated_against_impl'] = total
+    run.coverage['evaluations'] = total
+    run.coverage['distinct_nontrivial'] = len(scs)
+    run.coverage['fault_classes'] = sorted(classes)
+    run.coverage['duplicate_label_runs_accepted'] = accepted_dup
+    run.coverage['exhaustive'] = True
+    run.coverage['rule'] = ('TLC enumerates 42 faulty lines in 10 classes (range, register, label, constant, malformed, noninteger, duplicate, error, include, misfit; plain, '
+                            'pseudo-instruction, compressed, data and constant-definition variants) x 6 positions in the file x include depth 0..2; Flatten gives the provenance the error must '
+                            'carry; each tree is assembled through the API (file path, and source string at depth 0) with compression off and on, and through the CLI for a sample '
+                            '(exit status, stderr names file and line, no traceback)')
+    for s in scs[:2]:
+        run.sample({'class': s[0], 'variant': s[1], 'depth': s[2], 'pos': s[3], 'planted': s[5]})
+    run.coverage['trusted_base'] = ['TLC', 'AsmInclude!Flatten for provenance']
+    run.assumptions += ['duplicate label definitions are not refused by the assembler at all; the property is conditional on refusal, so that class is reported as an observation (count in duplicate_label_runs_accepted)',
+                        'a fault is "the assembler\'s own error" when assemble() raises AssemblerError / the CLI prints it without a traceback']
